@@ -2065,7 +2065,7 @@ func (r *vRunner) runHistory(h int, label string, noVerify bool, pairs []*vPair,
 		}
 		for j, m := range p.Pre {
 			res := n.runManager(m)
-			b, _ := json.Marshal(vMgrOp{Op: "mgr", H: h, I: i, J: j, ID: m.ID, Has: m.Has, Doc: res.view, SvcOk: res.svcOk, Via: m.Via, Key: res.newKey, B58: res.newB58})
+			b, _ := json.Marshal(vMgrOp{Op: "mgr", H: h, I: i, J: j, ID: m.ID, Has: m.Has, Doc: res.view, SvcOk: res.svcOk, Via: m.Via, Key: res.newKey, B58: res.newB58, Rm: m.Rm, Hash: res.rawHash})
 			r.opsW.Write(b)
 			r.opsW.WriteByte('\n')
 			note := ""
